@@ -117,8 +117,10 @@ def occ_attrs(mn, mx):
     return s
 
 
-def particle_xsd(p, ns="urn:t", qualified=True, types=None):
-    """XSD text; `types`: name -> key of ELEM_TYPES (default: every element xs:string)"""
+def particle_xsd(p, ns="urn:t", qualified=True, types=None, refs=(), subs=()):
+    """XSD text; `types`: name -> key of ELEM_TYPES (default: every element xs:string);
+    `refs`: element names written as references to global elements; `subs`: (member, head) pairs of
+    global elements with substitutionGroup="head" """
     types = types or {}
 
     def tname(n):
@@ -130,6 +132,8 @@ def particle_xsd(p, ns="urn:t", qualified=True, types=None):
         pad = "  " * ind
         if "elem" in q:
             n, mn, mx = q["elem"]
+            if n in refs:
+                return f'{pad}<xs:element ref="{n}"{occ_attrs(mn, mx)}/>\n'
             return f'{pad}<xs:element name="{n}" type="{tname(n)}"{occ_attrs(mn, mx)}/>\n'
         kind = "sequence" if "seq" in q else "choice"
         mn, mx, kids = q.get("seq") or q.get("choice")
@@ -143,6 +147,12 @@ def particle_xsd(p, ns="urn:t", qualified=True, types=None):
         for u, members in UNIONS.items()
         if u in {types.get(n) for n in types}
     )
+    heads = dict(subs)
+    globals_ = "".join(
+        f' <xs:element name="{n}" type="{tname(n)}"' + (f' substitutionGroup="{heads[n]}"' if n in heads else "") + "/>\n"
+        for n in list(dict.fromkeys(list(refs) + [m for m, _ in subs] + [h for _, h in subs]))
+    )
+    unions += globals_
     return (
         f'<?xml version="1.0"?>\n<xs:schema xmlns:xs="http://www.w3.org/2001/XMLSchema"{tns}{form}>\n{unions}'
         f' <xs:element name="r">\n  <xs:complexType>\n{body}  </xs:complexType>\n </xs:element>\n</xs:schema>\n'
@@ -633,6 +643,38 @@ def derive_xsd(base, own=None, ext=None, ns="urn:t"):
         body = particle_xsd(ext, ns=ns).split("<xs:complexType>\n", 1)[1].rsplit("  </xs:complexType>", 1)[0]
         out += f' <xs:complexType name="B"><xs:complexContent><xs:extension base="A">\n{body}</xs:extension></xs:complexContent></xs:complexType>\n <xs:element name="rb" type="B"/>\n'
     return out + "</xs:schema>\n"
+
+
+# --------------------------------------------------------------------------
+# substitution groups  (model: lean/XsdataModel/Gen/Subst.lean)
+# --------------------------------------------------------------------------
+def real_subst_sites(sites, subs, refs, ns="urn:t"):
+    """the real AddAttributeSubstitutions on a constructed class whose `refs` attrs are typed by global
+    element classes; `subs`: (member, head) pairs"""
+    from xsdata.codegen.container import ClassContainer
+    from xsdata.codegen.handlers import AddAttributeSubstitutions
+    from xsdata.codegen.models import AttrType, Class
+    from xsdata.models.config import GeneratorConfig
+    from xsdata.models.enums import Tag
+
+    q = lambda n: "{%s}%s" % (ns, n)  # noqa: E731
+    target = build_class(sites)
+    for a in target.attrs:
+        if a.name in refs:
+            a.types = [AttrType(qname=q(a.name))]
+    heads = dict(map(tuple, subs))
+    classes = [target]
+    for n in dict.fromkeys(list(refs) + list(heads) + list(heads.values())):
+        classes.append(Class(qname=q(n), tag=Tag.ELEMENT, location="mem", namespace=ns, substitutions=[q(heads[n])] if n in heads else []))
+    container = ClassContainer(GeneratorConfig())
+    container.extend(classes)
+    AddAttributeSubstitutions(container).process(target)
+    return [export_attr(a) for a in target.attrs]
+
+
+def by_name(sites):
+    """order of insertion and `index` of the clones are not modelled"""
+    return renumber(sorted(({**s, "index": 0} for s in sites), key=lambda s: s["name"]))
 
 
 # --------------------------------------------------------------------------
